@@ -119,7 +119,7 @@ class Engine:
             return True
         if z3.is_false(cond):
             return False
-        if self.policy is not None:
+        if self.policy is not None and self.witness is None:
             # regime assumption made inside a designated function (e.g. the warning-only test
             # `p < 0` of Junction.extract_results): no fork, the assumed outcome is recorded as a
             # hypothesis of every obligation on this path
